@@ -267,6 +267,9 @@ func (e StdEng) Concat(t Tensor, axis int, others ...Tensor) (retVal Tensor, err
 }
 
 func (e StdEng) denseConcat(a DenseTensor, axis int, Ts []DenseTensor) (DenseTensor, error) {
+	if axis == AllAxes {
+		axis = 0 // same convention as Shape.Concat
+	}
 	ss := make([]Shape, len(Ts))
 	var err error
 	var isMasked bool
